@@ -8,6 +8,7 @@ import MafModel.Model.SortOrder
 import MafModel.Model.Sorter
 import MafModel.Model.Overlap
 import MafModel.Model.Header
+import MafModel.Model.Reader
 import MafModel.Generated.Enums
 import MafModel.Generated.ClassTable
 import MafModel.Generated.SchemeDefs
@@ -189,6 +190,37 @@ def orderOf (j : Json) : Order :=
 def contigsOf (j : Json) : List Text :=
   (getArr j "contigs").filterMap (fun x => match x with | Json.str s => some (txt s) | _ => none)
 
+def hconsts : HConsts :=
+  { versionKey := txt Generated.versionKey, annotationKey := txt Generated.annotationSpecKey,
+    sortOrderKey := txt Generated.sortOrderKey, contigKey := txt Generated.contigKey,
+    startSymbol := (Generated.headerLineStartSymbol.toList.head?).getD '#',
+    sortOrders := Generated.sortOrders.map (fun p => (txt p.1, p.2.1, p.2.2)) }
+
+/-- `all_schemes()` as a registry: the pseudo-scheme class plus the built schemes;
+    `extras` are registered definitions (C20) -/
+def registryOf (schemes : List Scheme) : Registry :=
+  let all := noRestrictionsClass :: schemes
+  { schemes := all, supportedVersions := all.map (·.version), supportedAnnotations := all.map (·.annotation) }
+
+def linesOf (j : Json) (k : String) : List Text :=
+  (getArr j k).filterMap (fun x => match x with | Json.str s => some (txt s) | _ => none)
+
+def headerJson (h : Header) : Json :=
+  let K := hconsts
+  Json.mkObj [
+    ("records", Json.arr (h.recs.map (fun p => Json.arr #[jtxt p.1, jtxt (p.2.render K)])).toArray),
+    ("errors", errsJson h.errors),
+    ("version", match h.version K with | some t => jtxt t | none => Json.null),
+    ("annotation", match h.annotation K with | some t => jtxt t | none => Json.null),
+    ("sort_order", jtxt (h.sortOrder K).1.name),
+    ("sort_contigs", Json.arr ((h.sortOrder K).2.map jtxt).toArray),
+    ("contigs", match h.contigs K with | some cs => Json.arr (cs.map jtxt).toArray | none => Json.null)]
+
+def recSummary (C : Ctx) (r : Record) : Json :=
+  Json.mkObj [("errors", errsJson r.errors),
+    ("keys", Json.arr (r.keys.map (fun k => match k with | some t => jtxt t | none => Json.null)).toArray),
+    ("str", exceptText C (r.render C))]
+
 def dispatch (env : Env) (j : Json) : Json :=
   match getStr? j "op" with
   | some "ping" => Json.mkObj [("pong", Json.bool true),
@@ -292,6 +324,28 @@ def dispatch (env : Env) (j : Json) : Json :=
     let out := s.iter lt
     Json.mkObj [("out", Json.arr (out.map (fun p => Json.arr #[Json.num (Lean.JsonNumber.fromInt p.1), Json.num (Lean.JsonNumber.fromInt p.2)])).toArray),
       ("files", Json.num s.files.length), ("stash", Json.num s.stash.length)]
+  | some "hdr.lines" =>
+    let R := registryOf (env.schemes.map (·.2))
+    match Header.fromLines hconsts R (linesOf j "lines") (modeOf j) with
+    | (h, .ok logs) => Json.mkObj [("header", headerJson h), ("logs", logsJson logs),
+        ("scheme", match h.scheme hconsts R with | some s => Json.str s.annotation | none => Json.null)]
+    | (_, .error e) => Json.mkObj [("exc", Json.str (errName e))]
+  | some "reader.run" =>
+    let C := ctxOf env j
+    let R := registryOf (env.schemes.map (·.2))
+    let given := (getStr? j "given").bind (dictGet env.schemes)
+    match Reader.init C hconsts R (linesOf j "lines") (modeOf j) given with
+    | .error e => Json.mkObj [("init_exc", Json.str (errName e))]
+    | .ok r =>
+      let (recs, err, r') := r.readAll C hconsts
+      Json.mkObj [("header", headerJson r.header), ("init_errors", errsJson r.errors),
+        ("scheme", match r.scheme with
+          | some s => Json.mkObj [("annotation", Json.str s.annotation), ("names", Json.arr (s.names.map Json.str).toArray)]
+          | none => Json.null),
+        ("records", Json.arr (recs.map (recSummary C)).toArray),
+        ("iter_exc", match err with | some e => Json.str (errName e) | none => Json.null),
+        ("errors", errsJson r'.errors),
+        ("logs", logsJson r'.logs)]
   | some "spec.domain" =>
     let S : Spec.SCtx := { enums := Generated.enums, H := floatHostOf j }
     let ty : Option Spec.ColType := match getStr? j "cls" with
